@@ -298,6 +298,7 @@ static void write_objective (
 	char **colnames)
 {
 	int ri, i, k, var;
+	int printed = 0;
 	EGLPNUM_TYPENAME_ILLwrite_lp_state ln, *line = &ln;
 
 	if (lp->probname != NULL)
@@ -355,10 +356,13 @@ static void write_objective (
 				var = 0;								/* next line does not need to prefix coef with '+' */
 				EGLPNUM_TYPENAME_ILLprint_report (lp, "%s\n", line->buf);
 				EGLPNUM_TYPENAME_ILLwrite_lp_state_start (line);
+				printed = 1;
 			}
 		}
 	}
-	if (var > 0)
+	/* an all-zero objective still gets its "name:" line: without it the reader
+	 * names the objective "obj", which may be the name of a row */
+	if (var > 0 || !printed)
 	{
 		EGLPNUM_TYPENAME_ILLprint_report (lp, "%s\n", line->buf);
 	}
